@@ -41,6 +41,9 @@ pub enum DirtyKind {
     ManyUntracked,
     /// staged deletion (`git rm`)
     StagedDelete,
+    /// untracked files named exactly like the live tags and branches (a revision argument that is
+    /// also a path is ambiguous for git unless the caller separates them with `--`)
+    FilesNamedLikeRefs,
     // the following must leave the tree clean
     IgnoredOnly,
     UntrackedInIgnoredDir,
@@ -55,7 +58,7 @@ impl DirtyKind {
             DirtyKind::IgnoredOnly | DirtyKind::UntrackedInIgnoredDir | DirtyKind::EmptyDir | DirtyKind::TouchOnly
         )
     }
-    pub const ALL: [DirtyKind; 16] = [
+    pub const ALL: [DirtyKind; 17] = [
         DirtyKind::Untracked,
         DirtyKind::UntrackedInSubdir,
         DirtyKind::Modified,
@@ -68,6 +71,7 @@ impl DirtyKind {
         DirtyKind::WeirdName,
         DirtyKind::ManyUntracked,
         DirtyKind::StagedDelete,
+        DirtyKind::FilesNamedLikeRefs,
         DirtyKind::IgnoredOnly,
         DirtyKind::UntrackedInIgnoredDir,
         DirtyKind::EmptyDir,
@@ -670,6 +674,23 @@ impl World {
                     }
                     DirtyKind::StagedDelete => {
                         self.git_ok(&["rm", "-q", "base.txt"], None, None)?;
+                    }
+                    DirtyKind::FilesNamedLikeRefs => {
+                        let mut names: Vec<String> = self.live_tags().map(|t| t.name.clone()).collect();
+                        names.extend(self.branches.iter().filter(|b| b.alive).map(|b| b.name.clone()));
+                        names.push("HEAD".into());
+                        let mut made = 0;
+                        for n in names {
+                            if n.contains('/') || n.len() > 200 || n == "." || n == ".." || d.join(&n).exists() {
+                                continue;
+                            }
+                            if std::fs::write(d.join(&n), "named like a ref\n").is_ok() {
+                                made += 1;
+                            }
+                        }
+                        if made == 0 {
+                            return Ok("skip: no ref name usable as a file name".into());
+                        }
                     }
                     DirtyKind::IgnoredOnly => io(std::fs::write(d.join("artifact.ign"), "i\n"))?,
                     DirtyKind::UntrackedInIgnoredDir => {
